@@ -164,6 +164,16 @@ pub fn verif_crash_point(point: &str) {
     }
 }
 
+/// Verification hook (compiled only with --cfg chialisp_verif): report an internal value.
+#[cfg(chialisp_verif)]
+pub fn verif_event(kind: &str, payload: &str) {
+    if let Ok(trace) = std::env::var("CHIALISP_VERIF_TRACE") {
+        if let Ok(mut f) = fs::OpenOptions::new().create(true).append(true).open(trace) {
+            let _ = writeln!(f, "{kind}\t{payload}");
+        }
+    }
+}
+
 pub fn atomic_write_file(
     input_path: &str,
     output_path: &str,
